@@ -251,7 +251,7 @@ def run(ctx):
         incs = []
         for bb in sorted(im.reachable_blocks()):
             for st in im.blocks[bb]["stmts"]:
-                if st["k"] == "assign" and st["rv"]["k"] == "bin" and st["rv"]["op"] in ("AddWithOverflow", "Add") and st["rv"].get("ty") == "usize":
+                if st["k"] == "assign" and st["rv"]["k"] == "bin" and st["rv"]["op"] in ("AddWithOverflow", "Add") and st["rv"].get("ty") in ("usize", "u64"):
                     c = op_const(st["rv"]["b"])
                     a = op_place(st["rv"]["a"])
                     if c is not None and c.get("int") == 1 and a and im.local_name(a["l"]):
@@ -281,7 +281,7 @@ def run(ctx):
                     ctx.check(isc or early, P, "success-count|%s" % ("zero" if isz else "counter"), "a success result reports the number of tokens written (%s)" % ("0: nothing to do" if isz else "created_entries"), im.where(r["bb"]))
     ir = facts.one(edit.INSERT_REDUCE)
     if ir is not None:
-        _sum_rule(ctx, ir, P, "insert-reduce", "usize", "num_inserted_references")
+        _sum_rule(ctx, ir, P, "insert-reduce", ("usize", "u64"), "num_inserted_references")
     g = facts.one(edit.GENERATE)
     if g is not None:
         # the number printed is the reduced num_inserted_references
@@ -347,7 +347,7 @@ def _sum_rule(ctx, r, prefix, key, ty, field):
     adds = []
     for bb in sorted(r.reachable_blocks()):
         for st in r.blocks[bb]["stmts"]:
-            if st["k"] == "assign" and st["rv"]["k"] == "bin" and st["rv"]["op"] in ("AddWithOverflow", "Add") and st["rv"].get("ty") == ty:
+            if st["k"] == "assign" and st["rv"]["k"] == "bin" and st["rv"]["op"] in ("AddWithOverflow", "Add") and st["rv"].get("ty") in (ty if isinstance(ty, tuple) else (ty,)):
                 adds.append((bb, st))
     ok = len(adds) == 1
     if not adds:
